@@ -73,7 +73,11 @@ def strip_meta(cfg):
 
 def recreate_branches(data, skip_keys=None):
     new_data = data
-    if isinstance(data, (Namespace, dict)) and not isinstance(data, OrderedDict):
+    if isinstance(data, OrderedDict):  # has an (empty) __dict__ of its own, so it cannot go through the generic branch below
+        new_data = type(data)(
+            (key, recreate_branches(val, skip_keys)) for key, val in data.items() if skip_keys is None or key not in skip_keys
+        )
+    elif isinstance(data, (Namespace, dict)):
         new_data = type(data)()
         for key, val in getattr(data, "__dict__", data).items():
             if skip_keys is None or key not in skip_keys:
